@@ -133,6 +133,11 @@ def run(ctx, rep):
     rep.rule('R06.7', 'the specialised instructions (variable op literal) apply the same primitive as the generic instruction of their operator: type errors and range errors included')
     from rules import c10
     c10.check_fused_equals_generic(ctx, rep, 'R06.7')
+    rep.rule('R06.9', 'operands are decoded as what they are: a value is decoded only as what it is: every as_int / as_bool / as_function is preceded on every path by a test that the object has that tag (the decoders only shift the word: `ja` would read as 1, null as 0)')
+    from rules import unsafe_inv as _ui
+    _ui.check_immediates(ctx, rep, 'R06.9')
+    rep.rule('R06.8', 'a float literal keeps its bits, the sign of zero included: what enters the constant pool (de-duplicated with ==, under which 0.0 and -0.0 are one) is a literal payload as written, never the result of an operator applied at compile time')
+    c10.check_literal_constants(ctx, rep, 'R06.8')
     # R06.3
     shared.check_int_encoder_range(ctx, rep, 'R06.3')
     # R06.4
